@@ -126,6 +126,11 @@ def rules(ctx):
     o = ctx.ob("R1.edge-sites", "T8", SFVT, "the four EdgeLabel construction sites (trip, maintenance, connection, depot) are found")
     roles = sorted(str(e.role) for e in edges)
     ctx.decide(o, roles == ["connection", "depot", "maintenance", "trip"], "roles: %s" % roles, "edge constructions found: %s" % roles)
+    # "cover every departure segment with its required (limit-capped) number of vehicles": the bounds of a trip arc (shared with
+    # C07 and C06; round 8, C14h_2: the lower bound capped by the type's limit, the upper by the trip's -> lower > upper, no circulation)
+    flownet.need(ctx, "R1.trip-lower-bound", edges, "trip", "lower_bound",
+                 [call(N("number_of_vehicles_required_to_serve")), call(N("maximal_formation_count_for")), "param:2"],
+                 "trip arcs must carry min(required vehicles, applicable formation limit of that trip)")
     flownet.need(ctx, "R1.connection-cost", edges, "connection", "cost",
                  [call(N("dead_head_time_between")), field(COSTS, "dead_head_trip"), call(N("idle_time_between")), field(COSTS, "idle")],
                  "connection arcs cost dead-head time and idle time at their rates")
